@@ -9,7 +9,7 @@ import reactivex
 from reactivex import operators as ops
 
 from vlib.core import FAIL, OK, SKIP, Check, HarnessError
-from vlib.hoc import TSource, all_subs
+from vlib.hoc import TSource, all_subs, draw_timeline
 from vlib.lab import Lab
 from vlib.values import NAMES, canon, val
 
@@ -344,53 +344,40 @@ def _run(case):
 # ---------------------------------------------------------------------------------------
 # strategies
 
-def _tl(terms):
-    """Conforming timeline: 0-3 elements, gaps 0-3 (a quarter of the timelines are a single-instant burst), terminal from `terms`."""
-
-    @st.composite
-    def _s(draw):
-        n = draw(st.integers(0, 3))
-        burst = draw(st.integers(0, 3)) == 0
-        t, out = 0, []
-        for _ in range(n):
-            t += 0 if burst else draw(st.integers(0, 3))
-            out.append([t, "N", draw(st.sampled_from(NAMES))])
-        term = draw(st.sampled_from(list(terms)))
-        if term is not None:
-            t += 0 if burst else draw(st.integers(0, 3))
-            out.append([t, term, draw(st.sampled_from(["e1", "e2"])) if term == "E" else None])
-        return out
-
-    return _s()
-
-
 _MOSTLY_C = ("C", "C", "C", "E", "C", "C", "C", None)
 _MOSTLY_E = ("E", "E", "E", "C", "E", "E", "E", None)
 _KIND = st.sampled_from(["cold", "cold", "sync"])
 _COMMON = {"t0": st.integers(0, 3), "sched": st.sampled_from(["lab", "lab", "none"])}
 
 
-def _src(terms):
-    return st.fixed_dictionaries({"kind": _KIND, "tl": _tl(terms)})
+_ERRS = ["e1", "e2"]
 
 
-@st.composite
+def _tl(draw, terms):
+    """Conforming timeline: 0-3 elements, gaps 0-3 (a quarter of the timelines are a single-instant burst)."""
+    return draw_timeline(draw, 3, 3, NAMES, list(terms), _ERRS, burst_one_in=4)
+
+
+def _srcs(draw, terms, lo=1, hi=4):
+    n = draw(st.sampled_from([x for x in (2, 3, 1, 4) if lo <= x <= hi]))
+    return [{"kind": draw(_KIND), "tl": _tl(draw, terms)} for _ in range(n)]
+
+
 def _idx_list(draw, n, lo=0, hi=5):
     k = draw(st.sampled_from([x for x in (2, 3, 1, 4, 5, 2, 3, 4, 5, 0) if lo <= x <= hi]))
     return [draw(st.integers(0, n - 1)) for _ in range(k)]
 
 
-@st.composite
 def _scripted(draw, terms):
     """A source whose successive subscriptions play different timelines (terminal patterns like C,C,E or E,E,C)."""
-    n = draw(st.integers(1, 4))
-    return {"kind": draw(_KIND), "tls": [draw(_tl(terms)) for _ in range(n)]}
+    n = draw(st.sampled_from([2, 3, 1, 4]))
+    return {"kind": draw(_KIND), "tls": [_tl(draw, terms) for _ in range(n)]}
 
 
 @st.composite
 def _lists(draw):
-    srcs = draw(st.lists(_src(_MOSTLY_C), min_size=1, max_size=4))
-    order = draw(_idx_list(len(srcs)))
+    srcs = _srcs(draw, _MOSTLY_C)
+    order = _idx_list(draw, len(srcs))
     op, form = draw(
         st.sampled_from(
             [("concat", "factory"), ("concat", "op"), ("concat_with_iterable", "list"), ("concat_with_iterable", "gen"), ("for_in", "list"), ("for_in", "gen"), ("start_with", "op")]
@@ -410,7 +397,7 @@ def _lists(draw):
 @st.composite
 def _counts(draw):
     op = draw(st.sampled_from(["repeat", "retry"]))
-    src = draw(_scripted(_MOSTLY_C if op == "repeat" else _MOSTLY_E))
+    src = _scripted(draw, _MOSTLY_C if op == "repeat" else _MOSTLY_E)
     n = draw(st.sampled_from([2, 3, 4, 1, None, 2, 3, 4, None, 0]))
     take = draw(st.integers(1, 6)) if (n is None or draw(st.integers(0, 3)) == 0) else None
     c = {"op": op, "form": draw(st.sampled_from(["arg", "default"])), "srcs": [src], "order": [0], "n": n, "take": take}
@@ -423,7 +410,7 @@ def _counts(draw):
 def _catches(draw):
     fam = draw(st.sampled_from(["catch", "catch", "oern"]))
     terms = _MOSTLY_E if fam == "catch" else ("C", "E", "C", "E", "C", "E", None)
-    srcs = draw(st.lists(_src(terms), min_size=1, max_size=4))
+    srcs = _srcs(draw, terms)
     n = len(srcs)
     if fam == "catch":
         form = draw(st.sampled_from(["factory", "iter_list", "iter_gen", "op_obs", "op_handler"]))
@@ -432,14 +419,14 @@ def _catches(draw):
         elif form == "op_handler":
             order = [draw(st.integers(0, n - 1))]
         else:
-            order = draw(_idx_list(n))
+            order = _idx_list(draw, n)
         c = {"op": "catch", "form": form, "srcs": srcs, "order": order}
         if form == "op_handler":
             tgt = st.one_of(st.integers(0, n - 1), st.just("src"))
             c["hmap"] = {"e1": draw(tgt), "e2": draw(tgt), "*": draw(st.integers(0, n - 1))}
             if draw(st.booleans()):
                 # the source behaves differently when the handler returns it again
-                srcs[order[0]] = draw(_scripted(_MOSTLY_E))
+                srcs[order[0]] = _scripted(draw, _MOSTLY_E)
     else:
         form = draw(st.sampled_from(["factory", "factory", "op"]))
         if form == "op":
@@ -463,7 +450,7 @@ def _loops(draw):
     op = draw(st.sampled_from(["while_do", "do_while"]))
     k = draw(st.sampled_from([2, 3, 1, 4, 2, 3, 4, 0]))
     cond = [draw(st.sampled_from([True, True, True, True, False])) for _ in range(k)]
-    c = {"op": op, "form": "op", "srcs": [draw(_scripted(_MOSTLY_C))], "order": [0], "cond": cond}
+    c = {"op": op, "form": "op", "srcs": [_scripted(draw, _MOSTLY_C)], "order": [0], "cond": cond}
     for k, s in _COMMON.items():
         c[k] = draw(s)
     return c
